@@ -18,9 +18,11 @@ import (
 	"golang.org/x/telemetry/cmd/gotelemetry/internal/view"
 	"golang.org/x/telemetry/internal/config"
 	"golang.org/x/telemetry/internal/counter"
+	"golang.org/x/telemetry/internal/telemetry"
 	"golang.org/x/telemetry/internal/verifsim/hlib"
 	"golang.org/x/telemetry/internal/verifsim/mgen"
 	"golang.org/x/telemetry/internal/verifsim/ref/refformat"
+	"golang.org/x/telemetry/internal/verifsim/ref/refreport"
 	"golang.org/x/telemetry/internal/verifsim/ref/refstack"
 	"golang.org/x/telemetry/internal/verifsim/simrt"
 )
@@ -135,6 +137,62 @@ func scenarioViewer(c *hlib.RunCtx) *hlib.Violation {
 		sort.Strings(excluded) // map order must not reach the event log
 		sample = append(sample, fmt.Sprintf("%s: approved=%v excluded=%d", e.Name(), buildOK, len(excluded)))
 		s.Logf("file", "%s approved=%v excluded=%v", e.Name(), buildOK, excluded)
+	}
+	// The viewer's page of local weekly reports: one summary per program of a
+	// report. A report as the uploader writes it for local use (everything the
+	// week's files hold, build by build) is described the same way: the build, or
+	// each counter and stack that the uploader would leave out, is named.
+	var all []*refreport.CountFile
+	for _, e := range ents {
+		data, _ := os.ReadFile(filepath.Join(loc, e.Name()))
+		if d, err := refformat.Decode(data); err == nil {
+			all = append(all, &refreport.CountFile{Path: e.Name(), Meta: d.Meta, Counts: d.Counts})
+		}
+	}
+	if agg := refreport.Aggregate(all); viol == nil && len(agg.Programs) > 0 {
+		rep := &telemetry.Report{Week: "2024-06-01", X: 0.25, Config: "v0.1.0"}
+		for _, p := range agg.Programs {
+			rep.Programs = append(rep.Programs, &telemetry.ProgramReport{Program: p.Build.Program, Version: p.Build.Version, GoVersion: p.Build.GoVersion,
+				GOOS: p.Build.GOOS, GOARCH: p.Build.GOARCH, Counters: p.Counters, Stacks: p.Stacks})
+		}
+		sums, err := view.VerifNewTelemetryReport(rep, rcfg)
+		if err != nil || len(sums) != len(agg.Programs) {
+			fail("viewer-report", "the viewer does not show the local report: %v (%d summaries for %d programs)", err, len(sums), len(agg.Programs))
+		}
+		for i, p := range agg.Programs {
+			if viol != nil {
+				break
+			}
+			b := p.Build
+			buildOK := cfg.Ref.HasProgram(b.Program) && cfg.Ref.HasVersion(b.Program, b.Version) && cfg.Ref.HasGOOS(b.GOOS) && cfg.Ref.HasGOARCH(b.GOARCH) && cfg.Ref.HasGoVersion(b.GoVersion)
+			if strings.Contains(sums[i], "No data from this set would be uploaded") == buildOK {
+				fail("viewer-report-set", "local report, build %v: approved=%v but the viewer's summary is %q", b, buildOK, sums[i])
+			}
+			if !buildOK {
+				continue
+			}
+			var excluded []string
+			for n := range p.Counters {
+				if _, ok := cfg.Ref.CounterRate(b.Program, n); !ok {
+					excluded = append(excluded, n)
+				}
+			}
+			for n := range p.Stacks {
+				if _, ok := cfg.Ref.StackRate(b.Program, n); !ok {
+					excluded = append(excluded, n[:strings.Index(n, "\n")])
+				}
+			}
+			sort.Strings(excluded)
+			for _, x := range excluded {
+				if !strings.Contains(sums[i], "<code>"+html.EscapeString(x)+"</code>") {
+					fail("viewer-report-counters", "local report, build %v: %q would be excluded from an upload but the viewer's summary does not say so: %q", b, x, sums[i])
+				}
+			}
+			if len(excluded) == 0 && strings.Contains(sums[i], "would be excluded") {
+				fail("viewer-report-counters", "local report, build %v: everything would be uploaded but the viewer's summary says %q", b, sums[i])
+			}
+		}
+		s.Probe("viewer-report-judged")
 	}
 	c.Sample = map[string]any{"files": sample}
 	return viol
